@@ -82,13 +82,15 @@ theorem ceiling_at_creation {M : MulDiv} {maxFeeRate relay : Int} {ct : Nat} {so
     before and whatever the call returns, the rate is the ceiling.  No hypothesis: holds for
     any float primitive and any starting rate. -/
 theorem ceiling_by_deadline {M : MulDiv} {maxFeeRate relay : Int} {ct : Nat} {so est : Option Int}
-    {f : FeeFn} (hnew : newLinear M maxFeeRate ct so est relay = .ok f)
+    {f : FeeFn} (hnew : newLinear M maxFeeRate ct so est relay = .ok f) (hct : ct < u32Mod)
     (ops : List Op) (c : Nat) (hc : c ≤ 1) :
     ((f.run M ops).step M (.ict c)).cur = maxFeeRate := by
   obtain ⟨h1, h2⟩ := Top.run (M := M) (Top.new hnew) ops
   have he := (newLinear_spec hnew).1
+  have hwf := newLinear_width_lt hnew hct
   generalize f.run M ops = g at h1 h2
   have hend : g.end_ = maxFeeRate := by rw [h1.2.1, he]
+  have hwg : g.width + 1 < u32Mod := by rw [h1.2.2.1]; exact hwf
   simp only [FeeFn.step]
   cases h : g.increaseFeeRate M c with
   | error e =>
@@ -105,44 +107,55 @@ theorem ceiling_by_deadline {M : MulDiv} {maxFeeRate relay : Int} {ct : Nat} {so
   | ok r =>
     obtain ⟨g', b⟩ := r
     simp only []
-    have hnp : g.width ≤ g.newPos c := by unfold FeeFn.newPos; split <;> omega
+    have hnp : g.width ≤ g.newPos c := newPos_ge_width hwg hc
     rcases increaseFeeRate_spec h with ⟨hle, hg, _⟩ | ⟨_, h'⟩
     · subst hg; rw [h2 (by omega), hend]
     · obtain ⟨_, _, _, hcur, _⟩ := increaseTo_spec h'
       rw [hcur, rateAt_of_ge M g hnp, hend]
 
-/-- the conf target handed to the fee function one block before the deadline (or later) is `≤ 1`. -/
-theorem confTarget_near_deadline {height deadline : Int} (h : deadline - height ≤ 1) :
+/-- the conf target handed to the fee function one block before the deadline (or later) is `≤ 1`.
+    Domain (`hlo`): the `int32` subtraction `deadline - height` does not wrap below `-2^31`
+    (true whenever both heights are non-negative `int32`s). -/
+theorem confTarget_near_deadline {height deadline : Int} (h : deadline - height ≤ 1)
+    (hlo : -2147483648 ≤ deadline - height) :
     calcCurrentConfTarget height deadline ≤ 1 := by
-  unfold calcCurrentConfTarget
+  rw [calcCurrentConfTarget_exact ⟨hlo, by omega⟩]
   split <;> omega
+
+/-- WITNESS that `hlo` cannot be dropped: with deadline `-2^31` and height 1 the `int32` subtraction
+    wraps to `2^31 - 1` and the code computes a conf target of two billion blocks although the
+    deadline has passed (heights are never negative in lnd, so this is not reachable). -/
+theorem confTarget_wrap_witness : calcCurrentConfTarget 1 (-2147483648) = 2147483647 := by decide
 
 /-- `reaches_ceiling_by_deadline` (3): driven block by block with
     `confTarget = deadline - height` over ANY pattern of heights (skipped, repeated), once a
     block with `deadline - height ≤ 1` has been processed the rate is the ceiling. -/
 theorem ceiling_by_deadline_blocks {M : MulDiv} {maxFeeRate relay : Int} {ct : Nat}
     {so est : Option Int} {f : FeeFn}
-    (hnew : newLinear M maxFeeRate ct so est relay = .ok f)
-    (deadline : Int) (heights : List Int) (h : Int) (hh : deadline - h ≤ 1) :
+    (hnew : newLinear M maxFeeRate ct so est relay = .ok f) (hct : ct < u32Mod)
+    (deadline : Int) (heights : List Int) (h : Int) (hh : deadline - h ≤ 1)
+    (hlo : -2147483648 ≤ deadline - h) :
     (f.run M ((heights ++ [h]).map (fun x => Op.ict (calcCurrentConfTarget x deadline)))).cur
       = maxFeeRate := by
   rw [List.map_append, run_append]
   simp only [List.map_cons, List.map_nil, FeeFn.run, List.foldl_cons, List.foldl_nil]
-  exact ceiling_by_deadline hnew _ _ (confTarget_near_deadline hh)
+  exact ceiling_by_deadline hnew hct _ _ (confTarget_near_deadline hh hlo)
 
-theorem run_replicate_inc_pos {M : MulDiv} (f : FeeFn) (n : Nat) (h : f.pos + n ≤ f.width) :
+theorem run_replicate_inc_pos {M : MulDiv} (f : FeeFn) (n : Nat) (h : f.pos + n ≤ f.width)
+    (hw : f.width < u32Mod) :
     (f.run M (List.replicate n .inc)).pos = f.pos + n ∧ SameSched f (f.run M (List.replicate n .inc)) := by
   induction n generalizing f with
   | zero => exact ⟨rfl, SameSched.refl f⟩
   | succ n ih =>
     simp only [List.replicate_succ, FeeFn.run, List.foldl_cons]
     have hne : ¬ (f.pos ≥ f.width) := by omega
+    have hmod : (f.pos + 1) % u32Mod = f.pos + 1 := Nat.mod_eq_of_lt (by omega)
     have heq : f.step M .inc = { f with pos := f.pos + 1, cur := f.rateAt M (f.pos + 1) } := by
-      simp only [FeeFn.step, FeeFn.increment, FeeFn.increaseTo, hne, if_false]
+      simp only [FeeFn.step, FeeFn.increment, FeeFn.increaseTo, hne, if_false, hmod]
     have hstep : (f.step M .inc).pos = f.pos + 1 ∧ SameSched f (f.step M .inc) := by
       rw [heq]; exact ⟨rfl, rfl, rfl, rfl, rfl⟩
-    have hw : (f.step M .inc).width = f.width := hstep.2.2.2.1
-    have := ih (f.step M .inc) (by rw [hstep.1, hw]; omega)
+    have hw' : (f.step M .inc).width = f.width := hstep.2.2.2.1
+    have := ih (f.step M .inc) (by rw [hstep.1, hw']; omega) (by rw [hw']; exact hw)
     simp only [FeeFn.run] at this
     exact ⟨by rw [this.1, hstep.1]; omega, hstep.2.trans this.2⟩
 
@@ -150,9 +163,10 @@ theorem run_replicate_inc_pos {M : MulDiv} (f : FeeFn) (n : Nat) (h : f.pos + n 
     the ceiling (no float hypothesis needed: position `width` maps to the ceiling). -/
 theorem ceiling_after_width_increments {M : MulDiv} {maxFeeRate relay : Int} {ct : Nat}
     {so est : Option Int} {f : FeeFn}
-    (hnew : newLinear M maxFeeRate ct so est relay = .ok f) :
+    (hnew : newLinear M maxFeeRate ct so est relay = .ok f) (hct : ct < u32Mod) :
     (f.run M (List.replicate f.width .inc)).cur = maxFeeRate := by
   obtain ⟨hend, hcur, hpos, hcase⟩ := newLinear_spec hnew
+  have hwlt := newLinear_width_lt hnew hct
   cases hw : f.width with
   | zero =>
     simp only [List.replicate_zero, FeeFn.run, List.foldl_nil]
@@ -162,13 +176,14 @@ theorem ceiling_after_width_increments {M : MulDiv} {maxFeeRate relay : Int} {ct
   | succ n =>
     rw [List.replicate_succ']
     rw [run_append]
-    obtain ⟨hp, hsame⟩ := run_replicate_inc_pos (M := M) f n (by omega)
+    obtain ⟨hp, hsame⟩ := run_replicate_inc_pos (M := M) f n (by omega) (by omega)
     generalize f.run M (List.replicate n .inc) = g at hp hsame
     simp only [FeeFn.run, List.foldl_cons, List.foldl_nil, FeeFn.step, FeeFn.increment, FeeFn.increaseTo]
     have hgw : g.width = n + 1 := by rw [hsame.2.2.1, hw]
     have : ¬ (g.pos ≥ g.width) := by omega
     simp only [this, if_false]
-    rw [rateAt_of_ge M g (by omega), hsame.2.1, hend]
+    have hmod : (g.pos + 1) % u32Mod = g.pos + 1 := Nat.mod_eq_of_lt (by omega)
+    rw [hmod, rateAt_of_ge M g (by omega), hsame.2.1, hend]
 
 /-- relay floor / ceiling of an ESTIMATED starting rate (conf target below `MaxBlockTarget`):
     it is at least the relay fee unless the ceiling itself is below the relay fee, and it is
@@ -493,7 +508,7 @@ theorem incUntilIncreased_inv {M : MulDiv} : ∀ (fuel : Nat) (f : FeeFn), Sound
     | error e => exact ⟨SameSched.refl f, i, Int.le_refl _⟩
     | ok r =>
       obtain ⟨g, b⟩ := r
-      have h' := increment_spec h
+      have h' := increment_spec' (by have := s.wlt; omega) h
       obtain ⟨hi, hle⟩ := Inv.increaseTo s i (by omega) h'
       have hs := (increaseTo_spec h').2.1
       simp only []
@@ -699,8 +714,9 @@ theorem start_above_ceiling_breaks_cap_and_monotone :
     (≈ 537 k sat/vB) and the conf target is a uint32. -/
 theorem go_noOverflow_of_small {maxFeeRate relay : Int} {ct : Nat} {so est : Option Int} {f : FeeFn}
     (hnew : newLinear goMulF64 maxFeeRate ct so est relay = .ok f)
-    (hle : f.start ≤ f.end_) (hsmall : f.end_ - f.start ≤ 2 ^ 27) (hct : ct < 2 ^ 32) : NoOverflow f :=
-  noOverflow_of_small hnew hle hsmall hct
+    (hle : f.start ≤ f.end_) (hsmall : f.end_ - f.start ≤ 2 ^ 27) (hct : ct < 2 ^ 32)
+    (hlo : -9223372036854775808 ≤ f.start) (hhi : f.end_ ≤ 2 ^ 61) : NoOverflow f :=
+  noOverflow_of_small hnew hle hsmall hct hlo hhi
 
 /-- The hypothesis-free statement for the path the sweeper takes when no starting rate is
     supplied, inside the property's domain `0 ≤ relay ≤ ceiling`: an ESTIMATED start (any
@@ -724,7 +740,8 @@ theorem go_estimated {maxFeeRate relay : Int} {ct : Nat} {est : Option Int} {f :
     · obtain ⟨hfloor, hcap⟩ := hb (by omega)
       exact ⟨hfloor (Or.inl hdom), hcap (by omega)⟩
   have hle : f.start ≤ f.end_ := by rw [hend]; exact hfl.2
-  have hno := noOverflow_of_small hnew hle (by rw [hend]; omega) hct'
+  have hno := noOverflow_of_small hnew hle (by rw [hend]; omega) hct' (by omega)
+    (by rw [hend]; exact Int.le_trans hmax' (by norm_num))
   have hs := sound_of_noOverflow hle hno
   obtain ⟨c1, c2⟩ := rate_capped_partial hnew hs ops
   exact ⟨rate_monotone_partial hnew hs ops op, c1, c2, hfl.1⟩
@@ -757,17 +774,18 @@ theorem caller_start_floor_partial {M : MulDiv} {maxFeeRate relay s0 : Int} {ct 
     broadcast. -/
 theorem feeBump_publishes_at_ceiling (M : MulDiv) (r : Req) (rc : Rec) (height : Int) (mp : List Ans)
     (pub : Ans) (f : FeeFn) (t : Tx) (hf : rc.ff = some f) (ht : rc.tx = some t) (htop : Top f)
-    (hd : r.deadline - height ≤ 1) (hlt : f.cur < f.end_) (p : Prep)
+    (hw : f.width + 1 < u32Mod)
+    (hd : r.deadline - height ≤ 1) (hlo : -2147483648 ≤ r.deadline - height)
+    (hlt : f.cur < f.end_) (p : Prep)
     (hp : prepareSweepTx r.inputs f.end_ r.wTx height r.dust r.extra = .ok p)
     (hb : p.fee ≤ r.budget) (hmp : (nextAns mp).1 = .ok) :
     (true, buildTx r.inputs height r.extra p) ∈ (feeBump M r rc height mp pub).emitted := by
-  have hct := confTarget_near_deadline hd
+  have hct := confTarget_near_deadline hd hlo
   have hpos : f.pos < f.width := by
     by_contra hc
     have := htop (by omega)
     omega
-  have hnp : f.width ≤ f.newPos (calcCurrentConfTarget height r.deadline) := by
-    unfold FeeFn.newPos; split <;> omega
+  have hnp : f.width ≤ f.newPos (calcCurrentConfTarget height r.deadline) := newPos_ge_width hw hct
   have hinc : f.increaseFeeRate M (calcCurrentConfTarget height r.deadline) =
       .ok ({ f with pos := f.newPos (calcCurrentConfTarget height r.deadline), cur := f.end_ }, true) := by
     unfold FeeFn.increaseFeeRate
